@@ -3776,8 +3776,11 @@ class Fused(Blockwise):
             else:
                 graph[(_expr._name, i)] = _expr._task(i)
 
+        # Placeholders for the external inputs.  ``dask.core.get`` resolves any
+        # hashable argument equal to a key, so they must not be able to collide
+        # with literals (e.g. a column label "_0") used by the fused members.
         for i, dep in enumerate(self.dependencies()):
-            graph[self._blockwise_arg(dep, index)] = "_" + str(i)
+            graph[self._blockwise_arg(dep, index)] = (self._name, "_dep", i)
 
         return (
             Fused._execute_task,
@@ -3788,7 +3791,7 @@ class Fused(Blockwise):
     @staticmethod
     def _execute_task(graph, name, *deps):
         for i, dep in enumerate(deps):
-            graph["_" + str(i)] = dep
+            graph[(name, "_dep", i)] = dep
         return dask.core.get(graph, name)
 
 
